@@ -25,10 +25,10 @@ INVARIANT Conforms
 def run(ctx):
     q = ctx.quick
     ctx.rule = ("TLC enumerates every valid configuration of SaveLoad.tla (4 model kinds x dimension 1-3 given or not x source "
-                "dimension unspecified / 0 / 1 / 2 x noise default / scalar / diagonal x named, default or integer-labelled features x instance "
+                "dimension unspecified / 0 / 1 / 2 x noise default / scalar / diagonal x named, default, integer-labelled or header-like odd (surrounding / inner blanks, slash, dot, tab, non-ASCII) feature names x instance "
                 "name = kind or custom x origin fit (1-3 averaging iterations), hand-written file, fitted object edited through load_parameters, "
                 "fitted object calibrated again - the last two after the object answered trajectory requests and was saved to / loaded from "
-                "the very same path: 3564 configurations) and checks SurvivesSaveLoad on the "
+                "the very same path: 4656 configurations) and checks SurvivesSaveLoad on the "
                 "intended design and SurvivesExceptNamed on the as-built one (three named deviations); configurations are "
                 "executed on the real code (tiny fit, save, load, optional hand-edited file, re-save): population variables at "
                 "prior modes after the fit, derived values consistent with the saved parameters, load outcome, parameters / "
